@@ -800,6 +800,8 @@ void MDSDRV_Track_Writer::end_hook()
 
 void MDSDRV_Track_Writer::parse_platform_event(const Tag& tag)
 {
+	if(tag.empty())
+		error("empty platform command");
 	if(iequal(tag[0], "mode")) // PSG noise mode
 	{
 		if(tag.size() < 2)
